@@ -67,3 +67,7 @@ def run(tier):
         "known findings: assertions that fire when the substitution limit is hit with a request still queued, and when guards of an orthogonal root issue requests during the first activation",
     ]
     return chk
+
+
+def replay(path):
+    return en.replay(path)
